@@ -80,6 +80,7 @@ var gens = []generator{
 	{file: "Locator.lean", src: "locator.go (the locator constructors, tryLocation, AsLocator)", run: genLocator},
 	{file: "GbReaderPrelude.lean", src: "(fixed prelude: bytes.Index, strings.IndexByte, TrimSuffix, strings.Repeat as the reader's plain computations read them)", run: genGbReaderPrelude},
 	{file: "GbReaderFns.lean", src: "seqio/genbank.go, genbank_subparsers.go, insdc.go, reference.go, strings.go, dictionary.go (the reader's plain computations)", run: genGbReaderFns},
+	{file: "GbReaderDispatch.lean", src: "seqio/genbank.go (tryAllParsers)", run: genGbReaderDispatch},
 	{file: "GbReaderFacts.lean", src: "seqio/genbank.go, genbank_subparsers.go, insdc.go, reference.go, utils.go (the reader's structure)", run: genGbReaderFacts},
 }
 
